@@ -24,6 +24,24 @@ COQ_KEY = {"nodes_by_name": "KNodesByName", "links_by_name": "KLinksByName", "no
 NN, NL, NO, ND, NX = 3, 3, 2, 2, 2
 
 
+class IdAssoc:
+    """insertion-ordered association list keyed by object identity (the last value given for a key wins, its
+    position is that of its first insertion - as in a dict, but never merging two different objects)"""
+
+    def __init__(self, pairs=()):
+        self._p = []
+        for k, v in pairs:
+            for q in self._p:
+                if q[0] is k:
+                    q[1] = v
+                    break
+            else:
+                self._p.append([k, v])
+
+    def items(self):
+        return [(k, v) for k, v in self._p]
+
+
 class World:
     """the Python objects of a history: name ids are given by `names` (colliding or not)"""
 
@@ -148,13 +166,15 @@ class World:
         try:
             raw["nodes_by_name"] = {n.name: n for n in G.nodes}
             raw["links_by_name"] = {l.name: l for (_, _, l) in links}
-            raw["nodes_by_link"] = {l: (u, v) for (u, v, l) in links}
-            raw["origins"] = {d["origin"]: n for n, d in G.nodes.data() if "origin" in d}
-            raw["destinations"] = {d["destination"]: n for n, d in G.nodes.data() if "destination" in d}
-            raw["origins_by_name"] = {o.name: o for o in raw["origins"]}
-            raw["destinations_by_name"] = {o.name: o for o in raw["destinations"]}
-            raw["origins_by_node"] = {n: o for o, n in raw["origins"].items()}
-            raw["destinations_by_node"] = {n: o for o, n in raw["destinations"].items()}
+            # look-ups keyed by ELEMENTS are recomputed by object identity (two different elements are two keys
+            # whatever their names or any notion of equality between elements)
+            raw["nodes_by_link"] = IdAssoc((l, (u, v)) for (u, v, l) in links)
+            raw["origins"] = IdAssoc((d["origin"], n) for n, d in G.nodes.data() if "origin" in d)
+            raw["destinations"] = IdAssoc((d["destination"], n) for n, d in G.nodes.data() if "destination" in d)
+            raw["origins_by_name"] = {o.name: o for o, _ in raw["origins"].items()}
+            raw["destinations_by_name"] = {o.name: o for o, _ in raw["destinations"].items()}
+            raw["origins_by_node"] = IdAssoc((n, o) for o, n in raw["origins"].items())
+            raw["destinations_by_node"] = IdAssoc((n, o) for o, n in raw["destinations"].items())
         except Exception as ex:       # (a non-element in the graph: the C09 oracle reports it)
             return {k: f"<raised {type(ex).__name__}>" for k in KEYS}
         out = {}
